@@ -48,7 +48,6 @@ THEOREMS = [
     "Lena.C04.accOps_freshYield",
     "Lena.C04.acc_yield_fresh",
     "Lena.C04.split_compute_fresh",
-    "Lena.C04.store_yields_filled",
 ]
 TRUSTED = [
     "Lean 4.33.0 kernel; axioms limited to propext, Classical.choice, Quot.sound (audited by #print axioms on every run)",
